@@ -9,7 +9,7 @@ Top-level directives
                                                    lines up to //@end are its ASSUMED contract
   //@type <repo file> <Name>                       struct/enum/const/type; attributes+comments dropped (D1)
   //@fn <repo file> <[ImplHdr::]name>              whole function, verbatim
-  //@fragment <repo file> <[ImplHdr::]name> `from` .. `to`     statement range (D2: rest of fn dropped)
+  //@fragment <repo file> <[ImplHdr::]name> `from` .. `to`     statement range (D2: rest of fn dropped); `..<` excludes `to`
   //@arm <repo file> <[ImplHdr::]name> `pattern start`         body of one match arm / closure (D3)
   ... sub-directives ...
   //@end
@@ -90,9 +90,12 @@ def _process_item(kind, head, sub, meta, occ=None):
             raise ExtractError(f"{what}: fragment end anchor `{t[1]}` not found")
         a = f["body_open"] + i0
         b = f["body_open"] + i1 + len(t[1])
+        exclusive = "..<" in head
+        if exclusive:
+            b = f["body_open"] + i1       # `from` ..< `to`: everything up to, not including, the end anchor
         # the end anchor may be a minimal prefix of the last statement: extend to the end of that statement (`;` at
         # depth 0), and close any block the fragment opened (so an edit that wraps the statement in an `if` is still extracted whole)
-        if not src[a:b].rstrip().endswith((";", "}")):
+        if not exclusive and not src[a:b].rstrip().endswith((";", "}")):
             d = 0
             for c in m[a:b]:
                 if c in "([":
